@@ -106,7 +106,10 @@ InvReenc == Go /\ D.ok => LET e == ToCbor(Ty, D.x) IN e.ok /\ e.x = Item        
 Expect ==
   IF WF(Ty, Reg, Item) THEN [accept |-> TRUE, val |-> <<ValueOf(Ty, Reg, Item)>>, err |-> "", pinerr |-> FALSE, judge |-> TRUE,
                              reenc |-> <<Enc(Item)>>]
-  ELSE [accept |-> FALSE, val |-> <<>>, err |-> D.err, pinerr |-> ~Supported(st.pos, st.n), errprop |-> "C15", judge |-> TRUE, reenc |-> <<>>]
+  (* rejected: C15's business when the integer lies outside the supported range (then the out-of-range error is pinned); an in-range *)
+  (* integer rejected for another reason (unregistered, reserved key type, ...) is judged by the property that owns that rule        *)
+  ELSE [accept |-> FALSE, val |-> <<>>, err |-> D.err, pinerr |-> ~Supported(st.pos, st.n), errprop |-> "C15",
+        judge |-> ~Supported(st.pos, st.n), reenc |-> <<>>]
 Emit == Go => PrintT(ToJson([kind |-> "decode", props |-> <<"C15">>, ty |-> Ty, reg |-> Reg, item |-> Item, wires |-> <<Wire>>,
                              nt |-> TRUE, pos |-> st.pos, expect |-> Expect]))
 =============================================================================
